@@ -239,8 +239,8 @@ func checkC18(p *Prog, r *Report) {
 			continue
 		}
 		for _, c := range p.CallsTo(f, false, "ice.NewCandidateHost") {
-			if len(c.Args) != 1 {
-				continue
+			if len(c.Args) != 1 || !strings.HasPrefix(f.Root().Name, "Agent.") {
+				continue // parsing a remote candidate (UnmarshalCandidate) is not local publication
 			}
 			cl := p.compositeOf(f, c.Args[0])
 			if cl == nil {
@@ -298,6 +298,9 @@ func checkC18(p *Prog, r *Report) {
 				r.Fail("gatheringState written in "+f.Name, p.Pos(st.Pos()), "the gathering state is written outside Restart / setGatheringState")
 			}
 		}
+	}
+	if rs := p.Fn("Agent.Restart$1"); r.Anchor("Agent.Restart$1", rs != nil) {
+		r.Check(len(p.StoresTo(rs, "Agent.gatheringState")) == 1, "Restart returns the gathering state to New", p.Pos(rs.Body.Pos()), "one store", "Restart does not reset the gathering state: a fresh cycle is refused after Restart")
 	}
 	if f := p.Fn("Agent.gatherCandidates"); r.Anchor("Agent.gatherCandidates", f != nil) {
 		gi := p.CallsTo(f, false, "ice.Agent.gatherCandidatesInternal")
@@ -364,8 +367,8 @@ func checkC18(p *Prog, r *Report) {
 			r.Check(ok, "port range arguments in "+f.Name, p.Pos(c.Pos()), "(a.net, _, a.portMax, a.portMin, ...)", "the configured port range does not reach listenUDPInPortRange in (max, min) order: sockets are opened outside the configured range")
 		}
 		for _, c := range p.CallsTo(f, false, "ice.localInterfaces") {
-			if len(c.Args) != 5 {
-				continue
+			if len(c.Args) != 5 || !strings.HasPrefix(f.Root().Name, "Agent.") {
+				continue // the muxes enumerate interfaces with their own parameters
 			}
 			ok := p.IsField(c.Args[0], "Agent.net") && p.IsField(c.Args[1], "Agent.interfaceFilter") && p.IsField(c.Args[2], "Agent.ipFilter") && p.IsField(c.Args[4], "Agent.includeLoopback")
 			r.Check(ok, "filter arguments of localInterfaces in "+f.Name, p.Pos(c.Pos()), "(a.net, a.interfaceFilter, a.ipFilter, _, a.includeLoopback)", "the agent's interface/IP filters or loopback setting do not reach the interface enumeration here")
@@ -518,11 +521,14 @@ func checkC18(p *Prog, r *Report) {
 	// ---- R18.7 address predicates -------------------------------------------------------------------------------------------------
 	r.Rule("R18.7", "isSupportedIPv6Partial rejects exactly: length other than 16, IPv4-compatible (first 12 bytes zero), site-local fec0::/10 (first byte 0xfe and top two bits of the second set); shouldFilterLocationTrackedIP is Is6 and (link-local unicast or link-local multicast).", 2)
 	if f := p.Fn("isSupportedIPv6Partial"); r.Anchor("isSupportedIPv6Partial", f != nil) {
-		t := p.NewTable(f)
-		t.Run()
+		known := func(a *TAtom) bool {
+			txt := stripVarLines(a.Key)
+			return strings.Contains(txt, "builtin.len(") || strings.Contains(txt, "isZeros(") || strings.Contains(txt, "&") || strings.Contains(txt, "[0]")
+		}
+		rows := p.expandRows(f, known, 0)
 		bad := ""
 		seen := map[string]bool{}
-		for _, pa := range t.Paths {
+		for _, pa := range rows {
 			// classify the atoms decided on this path
 			lenOK, zeros, fe, mask := "?", "?", "?", "?"
 			for _, d := range pa.Hist {
@@ -545,7 +551,19 @@ func checkC18(p *Prog, r *Report) {
 					}
 				case strings.Contains(txt, "&"):
 					seen["mask"] = true
-					if !strings.Contains(txt, "[1]&192") && !strings.Contains(txt, "[1] & 192") {
+					okMask := false
+					ast.Inspect(d.Atom.X, func(n ast.Node) bool {
+						if be, ok := n.(*ast.BinaryExpr); ok && be.Op == token.AND {
+							mv, _ := p.ConstVal(be.Y)
+							if ix, ok := unparen(be.X).(*ast.IndexExpr); ok && mv == "192" {
+								if iv, _ := p.ConstVal(ix.Index); iv == "1" {
+									okMask = true
+								}
+							}
+						}
+						return true
+					})
+					if !okMask {
 						bad = "site-local mask atom is " + txt
 					}
 					switch d.Val {
@@ -571,15 +589,15 @@ func checkC18(p *Prog, r *Report) {
 			}
 			reject := lenOK == "F" || zeros == "T" || (fe == "T" && mask == "T")
 			accept := lenOK == "T" && zeros == "F" && (fe == "F" || mask == "F")
-			res := strings.Join(pa.Results, ",")
+			res := pa.Result
 			if (reject && res != "false") || (accept && res != "true") || (!reject && !accept) {
 				bad = fmt.Sprintf("row len16=%s zeros=%s fe=%s mask=%s returns %s", lenOK, zeros, fe, mask, res)
 			}
 		}
 		if !seen["mask"] || !seen["fe"] {
-			bad = "the site-local test (0xfe, &0xc0 == 0xc0) is not decided in this function"
+			bad = "the site-local test (0xfe, &0xc0 == 0xc0) is not decided by this function or the predicates it calls"
 		}
-		r.Check(bad == "" && len(t.Paths) >= 4, "isSupportedIPv6Partial decision table", p.Pos(f.Body.Pos()), fmt.Sprintf("%d rows", len(t.Paths)), bad+": IPv4-compatible or site-local IPv6 addresses can become candidates (or valid ones are dropped)")
+		r.Check(bad == "" && len(rows) >= 4, "isSupportedIPv6Partial decision table", p.Pos(f.Body.Pos()), fmt.Sprintf("%d rows", len(rows)), bad+": IPv4-compatible or site-local IPv6 addresses can become candidates (or valid ones are dropped)")
 	}
 	if f := p.Fn("shouldFilterLocationTrackedIP"); r.Anchor("shouldFilterLocationTrackedIP", f != nil) {
 		t := p.NewTable(f)
@@ -639,9 +657,31 @@ func (p *Prog) compositeOf(f *Func, e ast.Expr) *ast.CompositeLit {
 	case *ast.CompositeLit:
 		return x
 	case *ast.Ident:
+		obj := p.ObjOf(x)
 		for fn := f; fn != nil; fn = fn.Parent {
-			if d, ok := p.SingleDef(fn, p.ObjOf(x)); ok && d.Rhs != nil {
+			if d, ok := p.SingleDef(fn, obj); ok && d.Rhs != nil {
 				return p.compositeOf(fn, d.Rhs)
+			}
+			// the declaring statement (the variable's address may be taken later)
+			var found *ast.CompositeLit
+			n := 0
+			walkBody(fn, func(nd ast.Node) bool {
+				as, ok := nd.(*ast.AssignStmt)
+				if !ok || len(as.Lhs) != len(as.Rhs) {
+					return true
+				}
+				for i, l := range as.Lhs {
+					if id, ok := unparen(l).(*ast.Ident); ok && p.ObjOf(id) == obj {
+						n++
+						if cl, ok := unparen(as.Rhs[i]).(*ast.CompositeLit); ok {
+							found = cl
+						}
+					}
+				}
+				return true
+			})
+			if n == 1 && found != nil {
+				return found
 			}
 		}
 	}
@@ -841,7 +881,8 @@ func (p *Prog) guardedByOptionalFilter(f *Func, site ast.Node, which string) boo
 			if !no {
 				continue
 			}
-			r := g.Reach([]*Block{e.To}, func(x *Edge) bool { return x.To.Kind != "range.head" })
+			head := p.loopHeadOf(f, edgePos(e))
+			r := g.Reach([]*Block{e.To}, func(x *Edge) bool { return x.To != head })
 			if r[loc.B] {
 				return false
 			}
@@ -877,8 +918,9 @@ func (p *Prog) impliedBeforeAccept(f *Func, site ast.Node, marker string, incl f
 			}
 			found = true
 			// from here, the accept site must be reachable (within the iteration) only over includeLoopback == true
+			head := p.loopHeadOf(f, edgePos(e))
 			r := g.Reach([]*Block{e.To}, func(x *Edge) bool {
-				if x.To.Kind == "range.head" {
+				if x.To == head {
 					return false
 				}
 				for _, ft := range p.FactsOfCond(x.Cond, x.Val) {
@@ -920,9 +962,10 @@ func (p *Prog) familyGate(f *Func, site ast.Node) string {
 					seen4 = true
 					need = []string{"ipV4Requested"}
 				}
+				head := p.loopHeadOf(f, edgePos(e))
 				for _, nm := range need {
 					r := g.Reach([]*Block{e.To}, func(x *Edge) bool {
-						if x.To.Kind == "range.head" {
+						if x.To == head {
 							return false
 						}
 						for _, ft2 := range p.FactsOfCond(x.Cond, x.Val) {
@@ -1135,4 +1178,85 @@ func (p *Prog) checkPortScan(f *Func, r *Report) {
 		return true
 	})
 	r.Check(okRet, "port scan: first successful listen is returned", p.Pos(loop.Pos()), "return c on e == nil", "a successful listen is not returned")
+}
+
+// tableRow is one decided row of a boolean function's decision table.
+type tableRow struct {
+	Hist   []Decision
+	Result string
+}
+
+// expandRows enumerates the decision table of f; an atom that is a call to an
+// analysed single-result boolean function and is not recognised by the caller's
+// classifier is replaced by that function's own rows (so that factoring a test
+// out into a helper does not change the verdict).
+func (p *Prog) expandRows(f *Func, known func(a *TAtom) bool, depth int) []tableRow {
+	t := p.NewTable(f)
+	t.Run()
+	var rows []tableRow
+	for _, pa := range t.Paths {
+		cur := []tableRow{{Result: strings.Join(pa.Results, ",")}}
+		for _, d := range pa.Hist {
+			var sub []tableRow
+			if !known(d.Atom) && d.Atom.Kind == "bool" && depth < 2 {
+				if c, ok := unparen(d.Atom.X).(*ast.CallExpr); ok {
+					if callee := p.Callee(c); callee != nil {
+						if g := p.ByObj[callee]; g != nil && g.Body != nil {
+							for _, rr := range p.expandRows(g, known, depth+1) {
+								if rr.Result == d.Val {
+									sub = append(sub, rr)
+								}
+							}
+						}
+					}
+				}
+			}
+			var next []tableRow
+			for _, c := range cur {
+				if len(sub) == 0 {
+					next = append(next, tableRow{append(append([]Decision{}, c.Hist...), d), c.Result})
+					continue
+				}
+				for _, s := range sub {
+					next = append(next, tableRow{append(append([]Decision{}, c.Hist...), s.Hist...), c.Result})
+				}
+			}
+			cur = next
+		}
+		rows = append(rows, cur...)
+	}
+	return rows
+}
+
+// loopHeadOf: the head block of the innermost range loop of f that contains pos
+// (the block an iteration returns to for the next element).
+func (p *Prog) loopHeadOf(f *Func, pos token.Pos) *Block {
+	var inner *ast.RangeStmt
+	walkBody(f, func(n ast.Node) bool {
+		if rs, ok := n.(*ast.RangeStmt); ok && rs.Body.Pos() <= pos && pos <= rs.Body.End() {
+			if inner == nil || rs.Pos() > inner.Pos() {
+				inner = rs
+			}
+		}
+		return true
+	})
+	if inner == nil {
+		return nil
+	}
+	for _, b := range p.CFG(f).Blocks {
+		for _, e := range b.Succs {
+			if e.Cond != nil && e.Cond.Op == "range" && e.Cond.Stmt == ast.Stmt(inner) {
+				return b
+			}
+		}
+	}
+	return nil
+}
+
+// edgePos: a source position inside the condition an edge tests.
+func edgePos(e *Edge) token.Pos {
+	if e.Cond != nil && e.Cond.X != nil {
+		return e.Cond.X.Pos()
+	}
+	return token.NoPos
 }
